@@ -126,6 +126,11 @@ Section WithBlocks.
   Definition fill (x : axis) (s : st) (w : wire) : st :=
     {| g := upd_g (g s) w (g s w ++ mk_secs w (length (g s w)) (ach s x)); ach := ach s |}.
 
+  (** WireChopManager.grade starts every wire of the axis from an empty Grading (a second mesh.write() must
+      not append the chops again) *)
+  Definition refill (x : axis) (s : st) (w : wire) : st :=
+    {| g := upd_g (g s) w (mk_secs w 0 (ach s x)); ach := ach s |}.
+
   (** WirePropagateManager.copy_neighbours for one wire: every defined coincident overwrites *)
   Definition copy_wire (s : st) (w : wire) : st :=
     fold_left (fun s c =>
@@ -137,7 +142,7 @@ Section WithBlocks.
   Definition fill_undefined (x : axis) (s : st) (w : wire) : st := if w_defined s w then s else fill x s w.
 
   Definition grade_axis (s : st) (x : axis) : st :=
-    if chopped4 x then fold_left (fill x) (wires_of_axis x) s   (* WireChopManager.grade *)
+    if chopped4 x then fold_left (refill x) (wires_of_axis x) s   (* WireChopManager.grade *)
     else
       let s1 := fold_left copy_wire (wires_of_axis x) s in
       fold_left (fill_undefined x) (wires_of_axis x) s1.
